@@ -140,7 +140,8 @@ class C01(Spec):
     level_text = ('Bounded model checking of the real verify path: for ALL tokens up to L bytes, all key descriptors, '
                   'all configurations and all oracle answers, acceptance with a key implies exactly one consultation of '
                   'the crypto oracle with the configured key, the header algorithm, exactly the authenticated bytes and '
-                  'exactly the decoded third segment, answered "valid". Bounded (token length), not a proof.')
+                  'exactly the decoded third segment, answered "valid". The comparator behind the HMAC verdict (jwt_strcmp) is exact string '
+                  'equality for all pairs of strings up to 300 (1100) characters. Bounded (token length), not a proof.')
     level_note = ('Crypto primitives and JSON parsing are oracles (models M2/M3); bounds L<=12 quick / 16 thorough; '
                   'MAC length reduced to 3 bytes on the HMAC path; see evidence.assumptions')
     explanation = ('Core layer: jwt_checker_verify()==0 with a key implies exactly one oracle consultation, with the '
@@ -720,33 +721,40 @@ _T = {
  'C02': ('Bounded model checking: the whole (configured alg x key alg x key kind x header alg x route x signature) matrix is '
          'symbolic in ONE query per layer; setkey admits exactly the documented table, acceptance implies header alg == pinned '
          'alg, no crypto without key+alg, HMAC only with oct keys, provider primitives only after the key-family test; same on '
-         'the builder. Bounded (token <= L bytes).',
+         'the builder. setkey is checked as ONE STEP from an arbitrary earlier pin (refused => the earlier pin stays), and verification leaves '
+         'the stored pin untouched (histories of any length). Bounded (token <= L bytes).',
          'oracle provider at the core layer; EVP_PKEY type at the OpenSSL layer is a symbolic tag; GnuTLS family test is inside '
          'gnutls_pubkey_verify_data2 (modelled as documented)'),
  'C03': ('Bounded model checking of verify and generate with symbolic configuration (setkey and/or callback) and all tokens <= L: '
-         'with a key no empty signature / alg none is accepted or emitted; without a key only alg exactly "none" with an empty third segment.',
+         'with a key no empty signature / alg none is accepted or emitted; without a key only alg exactly "none" with an empty third segment; '
+         'a refused setkey does not take an earlier key away (step from an arbitrary earlier pin, checker and builder).',
          'oracle provider; JSON parser havocked; token length <= L'),
  'C04': ('Bounded model checking: K symbolic configuration calls (claim_set/claim_del/time_leeway) mirrored on a reference policy, '
          'then verify under a symbolic clock with exp/nbf/iss/sub/aud absent or of any JSON type; accepted => every check passes '
-         '(128-bit reference arithmetic), claims fail => no crypto; unsigned tokens accepted EXACTLY when the checks pass.',
+         '(128-bit reference arithmetic), claims fail => no crypto; unsigned tokens accepted EXACTLY when the checks pass; a string claim that '
+         'goes on after a NUL (only possible if the parser is given JSON_ALLOW_NUL) equals no expected value; one-step configuration queries.',
          'clock in [0,2^62], leeways in [-2^40,2^40], expected strings <= 3 ASCII bytes, K <= 2 (quick) / 3 (thorough) calls'),
  'C05': ('Bounded model checking of the provider sign/verify units: ECDSA DER <-> fixed-width r||s conversion for EVERY minimal-length '
          'r and s (both providers), output exactly 2*field bytes; PSS parameters on both sides; deterministic algorithms hand back the '
-         "primitive's bytes; signing input and key are exactly those handed in. Round trip of real signatures is the crypto libraries'.",
+         "primitive's bytes; signing input and key are exactly those handed in; on the builder the dump flag word, the alg header and the "
+         "iat/nbf/exp DELIVERED (offsets up to +-2^40 through the real API) are what the builder was told. Round trip of real signatures is the crypto libraries'.",
          'OpenSSL/GnuTLS primitives are oracles (M4/M5); the content-equality half (checker sees what the builder was given) is split '
          'between C10 (what is dumped) and C01 (what is parsed is what was authenticated); JSON text fidelity is jansson\'s'),
  'C06': ('Bounded model checking: every token <= L bytes: fewer than two dots, undecodable segment 1, header not an object / no known '
          'string alg, segment 2 not JSON => non-zero; memory safety (CBMC bounds/pointer checks, exact end-aligned allocator) of the '
-         'codec and of the provider verify units for all signature lengths; loops bounded by unwinding assertions.',
+         'codec and of the provider verify units for all signature lengths; the hand-back of the per-call error message is in bounds for ANY '
+         'message that fits its source buffer (contract stubs around the real tail of verify/generate); loops bounded by unwinding assertions.',
          'token <= L (12..16) bytes, not tens of kilobytes; leak freedom by per-unit balance obligations, not end to end'),
  'C07': ('Bounded model checking of the load path with a havocked parser: for each document SHAPE (not JSON, non-object, single JWK, keys of '
          'any type, keys array of 0..2 elements of any type) and every member absent or of any JSON type: item count/order, error<=>message, '
          'usable-or-errored, memory safety, ownership balance; the provider parsers are discharged separately for RSA/EC/OKP against the '
-         'same contract, every OpenSSL stub asserting its documented preconditions.',
+         'same contract, every OpenSSL stub asserting its documented preconditions; counted-length entry points on exactly sized buffers of '
+         'symbolic length 0..3; parser error text never used as a printf format.',
          'JSON grammar is jansson\'s (parser havocked); strings <= 6..8 bytes; <= 2 keys per set; OpenSSL is stubbed (M4)'),
  'C08': ('Bounded model checking of the JWK importers on arbitrary members: the (parameter name, bytes) pairs handed to OpenSSL are exactly '
          'the RFC 7518 members of the key type with bytes = reference base64url decoding; curve mapping, private/public, alg/use/key_ops/kid, '
-         'oct bytes and bits as the JWK states; foreign members never reach the provider.',
+         'oct bytes and bits as the JWK states; foreign members never reach the provider; well-formed members (minimal or zero-padded) import '
+         'without error whenever no OpenSSL stub fails.',
          'that EVP_PKEY_fromdata + PEM writing denote the same key, and the reported bit size, are OpenSSL\'s (oracles); member strings <= 5..12 bytes'),
  'C09': ('Model checking of jwt_sign / jwt_verify_sig with a symbolic (alg, key kind, bits) triple: the crypto oracle is reached IFF the '
          'floor predicate of the property holds (both directions), failure sets the error. Exhaustive over all algorithms and all sizes < 2^31. '
@@ -764,28 +772,34 @@ _T = {
          'N=12/M=16 quick, N=48/M=64 thorough; lengths beyond are outside the claim'),
  'C12': ('Model checking: provider selection by every name <= 9 bytes / every int id / every JWT_CRYPTO value is decided completely; both '
          'provider units are checked against the same contract (accepted <=> return 0 and flag clear; a signature the primitive rejects is '
-         'rejected; deterministic algorithms copy the primitive output; same ECDSA length rule).',
+         'rejected; deterministic algorithms copy the primitive output; same ECDSA length rule); a key imported while either provider is active '
+         'carries the OpenSSL key object, its OpenSSL tag and a PEM (usable under both).',
          'agreement of the two libraries\' primitives themselves is outside (oracles)'),
  'C13': ('Bounded model checking, two obligations: frame (verify/generate leave every configuration field and the stored trees unchanged, '
          'from an arbitrary error pre-state) and independence (two verify runs on the same token/config/clock/parse results/oracle tape, one '
          'from an arbitrary error state and one from a cleared one, return the same). Together: reused == fresh for histories of any length.',
          'independence query at L=8 with 1-byte MAC (the two-run miter is the costliest query); builder side: frame + functional determinism (C10)'),
  'C14': ('Bounded model checking from an arbitrary error pre-state: verify != 0 <=> flag set; failure => non-empty message; success => flag '
-         'clear and message empty; generate NULL <=> flag with message; refused setkey reported; item error => message (C07).',
-         'message content is not examined; snprintf modelled as writing the first literal character of its format'),
+         'clear and message empty; generate NULL <=> flag with message; refused setkey reported; item error => message (C07); the message handed '
+         'back after a failing step is non-empty for every message length that fits the buffer.',
+         'message content is not examined; snprintf modelled as writing the first literal character of its format (errcopy queries: any text)'),
  'C15': ('Model checking by one-step induction: from an ARBITRARY pre-state object one arbitrary set/get/del (all types, names NULL/empty/'
          'colliding/new, replace, JSON parse result havocked) on builder and jwt_t wrappers, headers and claims, compared with a reference map; '
-         'failed operations change nothing; return == value->error.',
+         'failed operations change nothing; return == value->error; JSON sets also with members that carry members of their own (overwrite vs merge). '
+         'The container model is checked against the real jansson on every run (conformance precheck).',
          'the container itself is the jansson model; values <= 2 ASCII bytes; invalid UTF-8 excluded'),
  'C16': ('Model checking by one-step induction over every keyring of 0..3 (4) items built by the real list code: each operation vs a reference '
          'sequence, the full doubly-linked-list invariant re-established, exact release accounting, CBMC memory-safety checks on.',
          'list STRUCTURE is concrete per query (a symbolic structure makes the release path explode), contents symbolic'),
  'C17': ('Fault enumeration by the solver: for each scenario every index k of the allocations it performs fails (one query per k, inputs '
-         'symbolic): no memory-safety failure, failure reported through the documented channel or result identical in kind to the fault-free run.',
+         'symbolic): no memory-safety failure, failure reported through the documented channel or result identical in kind to the fault-free run; '
+         'object lifecycle (new / configure / free) under the fault with pointer checks (no dangling handle, no double release).',
          'OpenSSL/GnuTLS internal allocations are not routed through jwt_set_alloc; leaks under fault are not asserted'),
  'C18': ('Sequential footprint condition decided by the solver (Bernstein): on all inputs within the C01/C10 bounds verify and generate '
          'leave every static-lifetime non-const object of the libjwt units (enumerated from the goto symbol table on every run), the shared key '
-         'item and its material, and an unrelated checker/builder unchanged; functions owning function-local statics must be unreachable. '
+         'item and its material, and an unrelated checker/builder unchanged; functions owning function-local statics must be unreachable; the '
+         'provider units (with the real provider table) likewise, re-checked at every call out to the crypto library or the other provider '
+         '(a set/call/restore of a process-wide object is seen there). '
          'No interleaving is explored.',
          'thread safety of OpenSSL/GnuTLS/jansson assumed; a write of the value already present is invisible; a correctly synchronised static would be a false alarm'),
  'C19': ('Bounded model checking: at the fork point (inside the callback) the real continuation is run on a deep clone of the unedited token '
@@ -794,8 +808,9 @@ _T = {
          'edit menu: delete/replace-by-int/replace-by-string/add-bool on exp,nbf,iss; delete-all claims/headers; overwrite alg header'),
  'C20': ('Model checking of the real jwt-verify main() over API stubs: for n tokens (argv and stdin routes) and ALL 2^n verdict vectors exit '
          'status == 0 <=> all verified (n up to 257 / 513); every option documented in usage() (parsed from the source each run) in every spelling '
-         'is accepted and its argument reaches the library; key2jwk writes EC x, y, d with the full field width for every integer value.',
-         'getopt_long is a model (no permutation, no abbreviations); key2jwk: only process_ec_key (fixed-width EC members) is encoded; jwt-generate options and jwk2key are covered only through the library properties'),
+         'is accepted and its argument reaches the library, likewise for jwt-generate; every stdin line (last one with or without newline) reaches '
+         'the library as one token; key2jwk writes EC x, y, d with the full field width for every integer value and the importer accepts them.',
+         'getopt_long is a model (no permutation, no abbreviations; checked against glibc on every run); key2jwk: only process_ec_key (fixed-width EC members) is encoded; jwk2key is covered only through the library properties'),
 }
 for _k, (_a, _b) in _T.items():
     if _k in PROPS:
